@@ -162,6 +162,14 @@ ID, on one manager: rejected, accepted, accepted – the rejected first attempt 
 example : ((validateSeq Rules.fixed [(exEnv, exBatchExp, 101), (exEnv, exBatch, 101), (exEnv, exBatch, 101)] none).1.map isOk)
     = [false, true, true] := by decide
 
+/-- **Regenerated facts** behind the two modelling decisions "the verifier has no state" and "script derivation is a
+function of its arguments": `batchVerifier` has exactly its five start-up fields, `Verify` / `validateMatchedOrder` /
+`validateChannelOutput` assign to none of them, and the poolscript helpers under `NextOutputScript` / `FundingOutput`
+read no package-level variable (no cache, no pool). -/
+theorem C02_verifier_and_script_helpers_stateless :
+    Pool.Gen.Batch.verifierFields = ["orderStore", "getAccount", "wallet", "ourNodePubkey", "version"] ∧
+    Pool.Gen.Batch.verifierFieldWrites = [] ∧ Pool.Gen.Batch.scriptHelperGlobals = [] := by decide
+
 /-! ## non-vacuity -/
 
 /-- the two-order proposal of `BatchExamples` meets the hypotheses (guard + acceptance by the repaired code) … -/
